@@ -31,7 +31,6 @@ const c02Rule = "rapid-generated protobuf models of the json profile: arbitrary 
 	"has a direct assignment that is not already first; distinct by model content. Bounded exhaustive part: every rewrite tree over the leaves {this, computed, tuple-to-userset} with " +
 	"operator nesting depth <= 2 (unions/intersections of 1-2 operands, 1-3 at the innermost level, differences) as the definition of one relation."
 
-
 func c02Check(in c02Input) string {
 	m := in.Model
 	pm := m.Proto()
@@ -217,6 +216,16 @@ func TestC02(t *testing.T) {
 	rec.Require("verdict:expressible", 0.30)
 	rec.Require("shape:this-not-first", 0.05)
 	rec.Require("shape:single-child-operator", 0.05)
+	// boundary models (fixed, legal, at the edges of the input space)
+	if ev.Shard()%4 == 0 {
+		for _, b := range gen.BoundaryModels() {
+			rec.Case("boundary: "+b.Name, true, nil, "origin:boundary")
+			if msg := c02Check(c02Input{Model: b.Model}); msg != "" {
+				rec.Violation(c02Input{Text: "boundary model: " + b.Name}, "boundary model ("+b.Name+"): "+msg)
+				t.Fatalf("boundary model %s: %.2000s", b.Name, msg)
+			}
+		}
+	}
 	// bounded exhaustive part: every tree of c02Trees as the definition of one relation (shared over the shards)
 	{
 		trees := c02Trees()
@@ -299,9 +308,19 @@ func TestReplayC02(t *testing.T) {
 			t.Fatalf("%s: %v", f, err)
 		}
 		rec := ev.New("C02", c02Rule)
+		if in.Model == nil && strings.HasPrefix(in.Text, "boundary model: ") {
+			for _, b := range gen.BoundaryModels() {
+				if "boundary model: "+b.Name == in.Text {
+					in.Model = b.Model
+				}
+			}
+		}
+		if in.Model == nil {
+			t.Fatalf("%s: no model", f)
+		}
 		if msg := c02Check(in); msg != "" {
-			rec.Violation(in, msg)
-			t.Errorf("%s: %s", f, msg)
+			rec.Violation(c02Input{Text: in.Text}, msg)
+			t.Errorf("%s: %.2000s", f, msg)
 		}
 	}
 }
